@@ -651,6 +651,31 @@ def gen_manifest():
         json.dump({"comment": "committed list of known findings; never written at run time. status=open suppresses exactly "
                               "the violations with the same signature; status=fixed suppresses nothing.",
                    "findings": findings}, f, indent=1)
+    # DESIGN.md section 10: index of the per-property as-built notes
+    dpath = os.path.join(VERIF, "DESIGN.md")
+    try:
+        d = open(dpath).read()
+        a = d.index("## 10. As built: index")
+        b = d.index("## Appendix A")
+        b = d.rfind("-" * 99, a, b)
+        lines = ["## 10. As built: index (filled by `./check --gen-manifest` from design.d/)", "",
+                 "Per-property as-built notes (model, theorem list with `Print Assumptions`, trusted base, findings, mutations tried):", ""]
+        claimed_by = {f["property_id"]: f for f in frags}
+        for pth in sorted(glob.glob(os.path.join(VERIF, "design.d", "C*.md"))):
+            pid = os.path.basename(pth)[:-3]
+            first = next((ln.strip("# ").strip() for ln in open(pth) if ln.strip()), pid)
+            tech = claimed_by.get(pid, {}).get("technique", "")
+            nopen = len([e for e in findings if e.get("property") == pid and e.get("status") == "open"])
+            nfix = len([e for e in findings if e.get("property") == pid and e.get("status") == "fixed"])
+            lines.append("* `design.d/%s.md` — %s  (open findings: %d, fixed: %d)%s" % (pid, first, nopen, nfix, ("; technique: " + tech) if tech else ""))
+        lines += ["", "Seeded mutants used to test the checks (independent red-team agents, see `seeded/*/meta.json`):", ""]
+        for mp in sorted(glob.glob(os.path.join(VERIF, "seeded", "*", "meta.json"))):
+            m = json.load(open(mp))
+            lines.append("* `%s` — %s: %s — caught: %s" % (os.path.basename(os.path.dirname(mp)), m.get("property"), m.get("what", "")[:160], m.get("caught")))
+        d = d[:a] + "\n".join(lines) + "\n\n" + d[b:]
+        open(dpath, "w").write(d)
+    except Exception as e:
+        print("note: DESIGN.md index not updated:", e)
     print("MANIFEST.json: %d checks, %d not_applicable; known_findings.json: %d entries" % (
         len(frags), len(base["not_applicable"]), len(findings)))
 
